@@ -1115,6 +1115,11 @@ fn run_c20(
                 let configured = users.get(name);
                 let cfg_pw = configured.map(|u| str_arg(u, "pw"))
                     .unwrap_or("pw-unknown").to_string();
+                // (an account whose configured hash matches no password:
+                // whatever is typed is not "the" password)
+                let cfg_pw = if cfg_pw.starts_with("#locked") {
+                    "pw-locked".to_string()
+                } else { cfg_pw };
                 let typed_pw = match str_arg(case, "pw_class") {
                     "exact" => cfg_pw.clone(),
                     "padded" => format!("  {cfg_pw}\t "),
